@@ -28,12 +28,15 @@ CHECKS = {
     "C20": ("proof", "Theorems for all inputs and all word lists (first applicable rule, totality, list entries rejected, names monotone, Go-faithful rune decoding); the real function, the compiled model and an independent reference classifier answer the same queries (all 300k list entries in the thorough tier).", "6/C20"),
 }
 
+CHECKS.update({
+    "C13": ("proof", "Mutual exclusion proved as an invariant of the transition system transcribed from mutexes.go for ANY number of goroutines and keys and every interleaving incl. purges; tie: the real lock table's manager events (add-only trace hook) and Lock/Unlock call/return events, recorded under the virtual clock on random and directed schedules, are checked by the Lean conformance checkers (proved sound against the transition system), and K concurrent Start calls on one id are checked for non-overlapping critical sections.", "6/C13"),
+    "C14": ("proof", "Deadlock freedom, no lost wake-up, exactly one admission per release, key independence, spurious-unlock no-op and termination of finite programs (progress measure) proved for the transition system under every scheduler; tie: as C13 plus an exact 'stuck' detector (a virtual-time watchdog fires only when every goroutine is blocked).", "6/C14"),
+    "C16": ("proof", "gob_roundtrip proved for ALL sessions about the encoder/decoder programs REGENERATED from GobEncode/GobDecode on every run; differential round trips of the real codec over generated field values judged against the property text; golden corpus of bytes written by the pinned commit.", "6/C16"),
+    "C17": ("proof", "json_roundtrip / json_total proved for ALL sessions about the key tables REGENERATED from MarshalJSON/UnmarshalJSON on every run; differential round trips of the real codec; golden corpus; malformed and mutated inputs must give an error or a re-encodable session and never panic.", "6/C17"),
+})
+
 PENDING = {
-    "C13": "check under construction in this commit (theorems exist in lean/Sessions/Mutex; the tie to the real lock table is being built)",
-    "C14": "check under construction in this commit (theorems exist in lean/Sessions/Mutex; the tie to the real lock table is being built)",
     "C15": "check under construction (generic lock-discipline theorem exists; the regenerated access table and the race-detector tie are being built)",
-    "C16": "check under construction (codec program model exists; extractor and differential round trips are being built)",
-    "C17": "check under construction (codec program model exists; extractor and differential round trips are being built)",
 }
 
 
@@ -50,7 +53,9 @@ def main():
             "replay_cmd_template": "bin/check %s --replay {path}" % pid,
             "engine": "lean-model+harness",
             "level_claimed": {"category": cat, "text": text, "design_ref": "DESIGN.md §" + ref},
-            "level_note": LIFECYCLE_NOTE if pid not in ("C19", "C20") else
+            "level_note": LIFECYCLE_NOTE if pid not in ("C13", "C14", "C16", "C17", "C19", "C20") else
+            "Trusted: Lean kernel; the transition system transcribed by hand from mutexes.go (tied to /repo by trace conformance on every run); Go runtime (channel rendezvous, select, scheduler, virtual clock); holds shorter than the staleness timeout." if pid in ("C13", "C14") else
+            "Trusted: Lean kernel; the go/ast extractor that regenerates the codec programs; encoding/gob, encoding/json, time and strconv (per-value round trip assumed as laws)." if pid in ("C16", "C17") else
             "Trusted: Lean kernel; the hand-written Lean functions (tied to /repo on every run by exact recomputation of the real package's outputs); Go standard library (crypto/rand, encoding/base64, strings.ToLower, gzip).",
             "technique": "Lean 4 theorems about an executable model + differential correspondence with the real code + property monitor",
         })
